@@ -248,4 +248,35 @@ theorem eval_sumCopiesIfAny (cnt pre post : String) (p : Nat)
     simp only [h, decide_false, Bool.false_eq_true, if_false, runP_const, POut.toOut, wrap_float_none, this,
       F64.pySum]
 
+
+/-- `float(sum([v[f'{pre}{n}{post}'] for n in range(i[cnt])]))`
+(Form 1040 line 2a; Form 8959 lines 1 and 19; …) -/
+def shapeFloatSumCopies (cnt pre post : String) : List Stmt :=
+  [.ret (.call .float [.call .sum [.listComp (.readV (.fstr [.const (.str pre), .var "n", .const (.str post)])) ["n"]
+      (.call .range [ri cnt]) []]])]
+
+theorem pyFloat_int0 : Val.pyFloat (.int 0) = .ok (.float F64.zero) := by
+  have h : Val.intToFloat 0 = .ok F64.zero := by decide +kernel
+  show (do let x ← Val.intToFloat 0; pure (Val.float x)) = _
+  rw [h]; rfl
+
+theorem eval_floatSumCopies (cnt pre post : String) (p : Nat)
+    (hb : d.body = shapeFloatSumCopies cnt pre post) (hk : d.kind = .float p)
+    (k : Int) (f : Int → F64)
+    (hcnt : is (qual' c.name inst cnt) = .ok (.int k)) (hk' : k ≤ 1000000)
+    (hp : post.toList.contains '.' = true)
+    (hv : ∀ j : Nat, j < k.toNat → vs (copyKey pre post j) = some (.float (f j))) :
+    run vs is fs (evalLine year c inst d) =
+      .val (.float (F64.roundN (F64.pySum (copyVals f k)) p)) := by
+  rw [run_evalLine, runP_body_ret _ _ _ _ _ _ hb, hk]
+  rw [runP_call1, runP_call1,
+    runP_listCompCopies vs is fs _ _ cnt pre post k f (by rw [qual_eq]; exact hcnt) hk' hp hv]
+  simp only [POut.bind_pure, applyBuiltin]
+  cases hcv : copyVals f k with
+  | nil =>
+    simp only [List.map_nil, pySum_nil, liftOut, POut.bind_pure, pyFloat_int0, POut.toOut, wrap_float, F64.pySum]
+  | cons x xs =>
+    rw [pySum_floats]
+    simp only [liftOut, POut.bind_pure, Val.pyFloat, POut.toOut, wrap_float]
+
 end HabuVerif.Dsl
